@@ -24,6 +24,16 @@ NOTES = {
  "C18-2": "missed by C18 at first; a third two-node mode was added in which five readers holding different fetched revisions are held right before SetCurrentRevision and released through a spin barrier at the same instant (150 rounds per case); all such cases catch it",
  "C20-2": "missed by C20 at first (requests were sent one at a time); every case now starts with a burst of 8 concurrent first requests, which in the first case of a worker process are concurrent first-ever emissions of their metrics",
  "C12-2": "missed by C12 at first (single-partition engines only); a TiKV mock pre-split into regions and a multi-partition memkv were added to the lock-step engine list",
+ "C03-3": "missed by C03 at first (no iterator faults); every 6th C03 case now ends with a List and a streamed range during which one iterator answers a single transient error (the scanner retries): a successful answer must still equal the snapshot",
+ "C04-3": "missed by C04 at first (every request context was live; a wedged store hangs the clients, which the driver's watchdog reports as inconclusive); a quarter of the C04 cases now issue 6% of their writes with an already cancelled context, and a stall monitor turns 'no request returned for 5 looks 3 s apart while every client goroutine is parked at the same synchronisation point' into a violation with the goroutine dump",
+ "C05-3": "not caught by C05 itself: the change only manifests after an unknown-outcome commit of a delete (a storage fault), which C05's quantifier does not contain; C09 got an event payload check against the storage-boundary log and catches it",
+ "C07-3": "missed by C07 at first (engines reporting one partition only); 3 of 7 C07 histories now run on engines reporting several partitions (TiKV mock pre-split, memkv behind a GetPartitions override) with borders inside keys' versions",
+ "C08-3": "missed by C08 at first (fewer keys than one 300-kv stream batch); every 8th C08 case now holds 650-950 more keys",
+ "C09-3": "missed by C09 at first (one unknown outcome at a time); every 4th C09 history is now a concurrent run with paired unknown outcomes (the older one answered late, the younger at once), a compactor requesting Compact(max) throughout and a compaction-cap oracle over the set of unresolved revisions",
+ "C13-3": "missed by C13 at first (no iterator faults); every 5th C13 case now ends with whole-interval streams during which one partition worker's iterator answers a single transient error",
+ "C16-3": "missed by C16 at first (engines reporting one partition only); a pre-split TiKV mock and a multi-partition memkv were added to C16's engine list",
+ "C19-3": "missed by C19 at first (watch caches never wrapped while watches were catching up); a workload with an 8-64 event cache, two continuous writers and four clients registering watches from inside the cache was added",
+ "C20-3": "missed by C20 at first: the node ends the process through klog.Fatal, which the driver used to classify as an inconclusive child death; the worker now lets klog FATAL lines through to stderr and the driver reports 'crash klog.Fatal in <file>' as a violation (except the deliberate 'leader lost' exit)",
 }
 for d in sorted(glob.glob('/verif/seeded/C*')):
     sid=os.path.basename(d)
